@@ -351,3 +351,37 @@ def _(v):
         v.prove("precipitates_iff_ion_product_of_the_dissolved_state_exceeds_Ksp", SP.iff(r, ion_product > 3.9e-11 * (1 + 1e-14)))
     else:
         v.prove("precipitates_iff_ion_product_of_the_dissolved_state_exceeds_Ksp", SP.iff(r, (1 / ion_product) * (1 + 1e-14) < 1 / 3.9e-11))
+
+
+@harness("C08", "row_reduced_equations_with_precipitates", functions=[EQ + ":EqSystem.stoichs_constants", EQ + ":EqSystem.eq_constants", "chempy.reactionsystem:ReactionSystem.stoichs", "chempy._eqsys:_NumSys._get_A_ks"],
+         kind="data")
+def _(v):
+    """the optional row reduction of the equilibrium equations (rref_equil=True) must describe the SAME equations as the plain form for every
+    assumed set of absent solids: 'A ln c = ln K' with, for an absent solid, the row '[solid] = small' -- so that a state claimed with the option on
+    still meets the solubility products. Decided exactly (sympy rationals and symbolic logarithms): the augmented matrices [A | ln K] of the two
+    forms have the same row space, for a two-salt system with a common ion plus a homogeneous equilibrium, all four presence patterns"""
+    import sympy
+    from chempy.chemistry import Equilibrium, Species
+    from chempy.equilibria import EqSystem
+    subs = (Species("Na+", 1, composition={11: 1}), Species("Cl-", -1, composition={17: 1}), Species("Ag+", 1, composition={47: 1}), Species("NH3", composition={7: 1, 1: 3}),
+            Species("AgNH3+", 1, composition={47: 1, 7: 1, 1: 3}), Species("NaCl", composition={11: 1, 17: 1}, phase_idx=1), Species("AgCl", composition={47: 1, 17: 1}, phase_idx=1))
+    eqsys = EqSystem([Equilibrium({"NaCl": 1}, {"Na+": 1, "Cl-": 1}, sympy.Integer(37)), Equilibrium({"AgCl": 1}, {"Ag+": 1, "Cl-": 1}, sympy.Rational(1, 5000)),
+                      Equilibrium({"Ag+": 1, "NH3": 1}, {"AgNH3+": 1}, sympy.Integer(2000))], subs)
+    small = sympy.Rational(1, 10 ** 9)
+    bad = []
+    for npr in ((), (0,), (1,), (0, 1)):
+        try:
+            ks = eqsys.eq_constants(npr, None, small)
+            A0, k0 = eqsys.stoichs_constants(ks, False, backend=sympy, non_precip_rids=npr)
+            A1, k1 = eqsys.stoichs_constants(ks, True, backend=sympy, non_precip_rids=npr)
+            M0 = sympy.Matrix([list(r) + [sympy.log(k)] for r, k in zip(A0.tolist(), k0)])
+            M1 = sympy.Matrix([list(r) + [sympy.expand_log(sympy.log(k), force=True)] for r, k in zip(A1, k1)])
+            want_rows = [[0, 0, 0, 0, 0, 1, 0] if 0 in npr else [1, 1, 0, 0, 0, 0, 0], [0, 0, 0, 0, 0, 0, 1] if 1 in npr else [0, 1, 1, 0, 0, 0, 0], [0, 0, -1, -1, 1, 0, 0]]
+            if [list(map(int, r)) for r in A0.tolist()] != want_rows or list(k0) != [small if 0 in npr else 37, small if 1 in npr else sympy.Rational(1, 5000), 2000]:
+                bad.append((npr, "plain form", A0.tolist(), k0))
+            r0, r1, r01 = M0.rank(), M1.rank(), M0.col_join(M1).rank()
+            if not (r0 == r1 == r01 == 3):
+                bad.append((npr, "row spaces differ", r0, r1, r01, M1.tolist()))
+        except Exception as ex:
+            bad.append((npr, repr(ex)[:200]))
+    v.prove("same_equations_for_every_presence_pattern", not bad, detail=repr(bad[:2]))
